@@ -60,27 +60,85 @@ def StepWF (S : Schema) : Step → Prop
 /-- attribute defaulting on decode is the identity on well-formed attributes -/
 theorem computeAttrs_wf (decls : List AttrDecl) (a : Attrs) (h : AttrsWF decls a) :
     computeAttrs decls a = .ok a := by
-  sorry
+  exact computeAttrs_ok decls a h.1 h.2.1 h.2.2
 
 /-- **marks** -/
 theorem mark_rt (S : Schema) (hS : SchemaOk S) (m : Mark) (h : MarkWF S m) :
     S.markOfJ (S.markToJ m) = .ok m := by
-  sorry
+  exact markOfJ_markToJ S m (hS.markNames _ h.1) (computeAttrs_wf _ _ h.2)
+
+private theorem marks_rt (S : Schema) (hS : SchemaOk S) (ms : Marks) (h : MarksWF S ms) :
+    (ms.map S.markToJ).mapM S.markOfJ = .ok ms :=
+  mapM_markOfJ S ms (fun m hm => mark_rt S hS m (h.1 m hm))
+
+private theorem name_ne_text (S : Schema) (hS : SchemaOk S) (t : TypeId) (ht : t < S.nodes.size)
+    (hne : t ≠ S.textTy) : S.nodeName t ≠ "text" :=
+  fun e => hne ((hS.textName t ht).mp e)
+
+private theorem nodeWF_size (S : Schema) (k : Node) (h : NodeWF S k) : 1 ≤ k.size := by
+  cases h with
+  | text s m hs _ =>
+    simp only [Node.size]
+    cases s with
+    | nil => exact absurd rfl hs
+    | cons => simp
+  | leaf => simp only [Node.size]; omega
+  | elem => simp only [Node.size]; omega
+
+private theorem nodeDepth_elem (t : TypeId) (a : Attrs) (m : Marks) (kids : List Node) :
+    nodeDepth (.elem t a m kids) = 1 + kidsDepth kids := by simp only [nodeDepth]
+private theorem kidsDepth_cons (n : Node) (ns : List Node) :
+    kidsDepth (n :: ns) = max (nodeDepth n) (kidsDepth ns) := by simp only [kidsDepth]
+
+mutual
+/-- nodes and child lists together, by structural recursion in the shape of `nodeToJ`/`kidsToJ` -/
+private theorem node_rt_n (S : Schema) (hS : SchemaOk S) : ∀ (n : Node), NodeWF S n → ∀ fuel,
+    nodeDepth n ≤ fuel → S.nodeOfJ fuel (S.nodeToJ n) = .ok n
+  | .text s m, h, fuel, hf => by
+    cases h with
+    | text _ _ hs hm =>
+      obtain ⟨fuel', rfl⟩ : ∃ f, fuel = f + 1 := ⟨fuel - 1, by simp only [nodeDepth] at hf; omega⟩
+      exact nodeOfJ_nodeToJ_text S fuel' s m hs (marks_rt S hS m hm) hm.2
+  | .leaf t a m, h, fuel, hf => by
+    cases h with
+    | leaf _ _ _ ht hne hl ha hm =>
+      obtain ⟨fuel', rfl⟩ : ∃ f, fuel = f + 1 := ⟨fuel - 1, by simp only [nodeDepth] at hf; omega⟩
+      exact nodeOfJ_nodeToJ_leaf S fuel' t a m (name_ne_text S hS t ht hne) (hS.nodeNames t ht) hl
+        (computeAttrs_wf _ _ ha) (marks_rt S hS m hm) hm.2
+  | .elem t a m kids, h, fuel, hf => by
+    cases h with
+    | elem _ _ _ _ ht hne hl ha hm hk =>
+      rw [nodeDepth_elem] at hf
+      obtain ⟨fuel', rfl⟩ : ∃ f, fuel = f + 1 := ⟨fuel - 1, by omega⟩
+      exact nodeOfJ_nodeToJ_elem S fuel' t a m kids (name_ne_text S hS t ht hne) (hS.nodeNames t ht) hl
+        (computeAttrs_wf _ _ ha) (marks_rt S hS m hm) hm.2
+        (eq_nil_of_fsize_zero kids (fun k hk' => nodeWF_size S k (hk k hk')))
+        (node_rt_k S hS kids hk fuel' (by omega))
+private theorem node_rt_k (S : Schema) (hS : SchemaOk S) : ∀ (l : List Node), (∀ k, k ∈ l → NodeWF S k) →
+    ∀ fuel, kidsDepth l ≤ fuel → S.kidsOfJ fuel (S.kidsToJ l) = .ok l
+  | [], _, fuel, _ => by rw [kidsToJ_nil, kidsOfJ_nil]
+  | n :: ns, h, fuel, hf => by
+    rw [kidsDepth_cons] at hf
+    rw [kidsToJ_cons]
+    exact kidsOfJ_cons_ok S fuel _ _ n ns
+      (node_rt_n S hS n (h n (by simp)) fuel (by omega))
+      (node_rt_k S hS ns (fun k hk => h k (by simp [hk])) fuel (by omega))
+end
 
 /-- **nodes / documents** (any nesting depth) -/
 theorem node_rt (S : Schema) (hS : SchemaOk S) (n : Node) (h : NodeWF S n) (fuel : Nat)
     (hf : nodeDepth n ≤ fuel) : S.nodeOfJ fuel (S.nodeToJ n) = .ok n := by
-  sorry
+  exact node_rt_n S hS n h fuel hf
 
 /-- **fragments** -/
 theorem frag_rt (S : Schema) (hS : SchemaOk S) (l : List Node) (h : ∀ k, k ∈ l → NodeWF S k) (fuel : Nat)
     (hf : kidsDepth l ≤ fuel) : S.fragOfJ fuel (some (S.fragToJ l)) = .ok l := by
-  sorry
+  exact fragOfJ_fragToJ S fuel l (node_rt_k S hS l h fuel hf)
 
 /-- **slices** (open depths default to 0 when omitted) -/
 theorem slice_rt (S : Schema) (hS : SchemaOk S) (sl : Slice) (h : SliceWF S sl) (fuel : Nat)
     (hf : kidsDepth sl.content ≤ fuel) : S.sliceOfJ fuel (some (S.sliceToJ sl)) = .ok sl := by
-  sorry
+  exact sliceOfJ_sliceToJ S fuel sl h.2 (node_rt_k S hS _ h.1 fuel hf)
 
 /-- **steps of all eight kinds**: the decoded step *is* the original step, hence has the identical
     effect (`apply`) and position map (`getMap`) on every document -/
@@ -88,25 +146,38 @@ theorem step_rt (S : Schema) (hS : SchemaOk S) (st : Step) (h : StepWF S st) (fu
     (hf : ∀ f t sl b, st = .replace f t sl b → kidsDepth sl.content ≤ fuel)
     (hf' : ∀ f t gf gt sl i b, st = .replaceAround f t gf gt sl i b → kidsDepth sl.content ≤ fuel) :
     S.stepOfJ fuel (S.stepToJ st) = .ok st := by
-  sorry
+  cases st with
+  | replace f t sl b =>
+    exact stepOfJ_replace S fuel f t sl b h.2 (node_rt_k S hS _ h.1 fuel (hf f t sl b rfl))
+  | replaceAround f t gf gt sl i b =>
+    exact stepOfJ_replaceAround S fuel f t gf gt sl i b h.2
+      (node_rt_k S hS _ h.1 fuel (hf' f t gf gt sl i b rfl))
+  | addMark f t m => exact stepOfJ_addMark S fuel f t m (mark_rt S hS m h)
+  | removeMark f t m => exact stepOfJ_removeMark S fuel f t m (mark_rt S hS m h)
+  | addNodeMark p m => exact stepOfJ_addNodeMark S fuel p m (mark_rt S hS m h)
+  | removeNodeMark p m => exact stepOfJ_removeNodeMark S fuel p m (mark_rt S hS m h)
+  | attr p n v => exact stepOfJ_attr S fuel p n v
+  | docAttr n v => exact stepOfJ_docAttr S fuel n v
 
 /-- re-serialising the decoded object gives the identical JSON -/
 theorem node_json_stable (S : Schema) (hS : SchemaOk S) (n n' : Node) (h : NodeWF S n) (fuel : Nat)
     (hf : nodeDepth n ≤ fuel) (hd : S.nodeOfJ fuel (S.nodeToJ n) = .ok n') : S.nodeToJ n' = S.nodeToJ n := by
-  sorry
+  rw [node_rt S hS n h fuel hf] at hd
+  cases hd
+  rfl
 
 /-- **registry**: every built-in step type is published under its own name, the eight names are
     distinct, and the decoder dispatches on exactly these -/
 theorem registry_names : stepIds.Nodup ∧ stepIds.length = 8 := by
-  sorry
+  exact stepIds_nodup
 
 theorem stepToJ_type (S : Schema) (st : Step) :
     ∃ name, (S.stepToJ st).get "stepType" = some (.str name) ∧ name ∈ stepIds := by
-  sorry
+  exact stepToJ_stepType S st
 
 theorem stepOfJ_unknown (S : Schema) (fuel : Nat) (kv : List (String × J)) (name : String)
     (h : (J.obj kv).get "stepType" = some (.str name)) (hn : name ∉ stepIds) :
     S.stepOfJ fuel (J.obj kv) = .error .valueError := by
-  sorry
+  exact stepOfJ_unknown_aux S fuel kv name h hn
 
 end PM.C05
